@@ -29,9 +29,16 @@ try:
     env = f"env -u BLUESKY_VERIF PYTHONPATH={wt}/src"
     r0 = sh(f"cd /tmp && {env} timeout 180 /venv/bin/python {a.demo}")
     report["demo_on_unchanged_rc"] = r0.returncode
+    rebased = None
     if sh(f"git -C {wt} apply {a.patch}").returncode != 0:
-        report["error"] = "patch does not apply to the current tree"
-        print(json.dumps(report)); sys.exit(2)
+        # the repository moved on (fix commits near the patched lines): three-way apply, keep the rebased patch
+        r3 = sh(f"git -C {wt} apply --3way {a.patch}")
+        if r3.returncode != 0 or sh(f"git -C {wt} diff --name-only --diff-filter=U").stdout.strip():
+            report["error"] = "patch does not apply to the current tree: " + (r3.stderr or "")[-300:]
+            print(json.dumps(report)); sys.exit(2)
+        sh(f"git -C {wt} reset -q")
+        rebased = sh(f"git -C {wt} diff").stdout
+        report["rebased_onto"] = report["base_commit"]
     r1 = sh(f"cd /tmp && {env} timeout 180 /venv/bin/python {a.demo}")
     report["demo_with_change_rc"] = r1.returncode
     report["demo_with_change_tail"] = (r1.stdout + r1.stderr)[-300:]
@@ -60,7 +67,11 @@ finally:
 report["demo_confirmed"] = report.get("demo_on_unchanged_rc") == 0 and report.get("demo_with_change_rc", 0) != 0
 d = os.path.join(ROOT, "seeded", a.seed_id)
 os.makedirs(d, exist_ok=True)
-shutil.copy(a.patch, os.path.join(d, "patch.diff"))
+if rebased:
+    open(os.path.join(d, "patch.diff"), "w").write(rebased)
+    open(a.patch, "w").write(rebased)   # later evaluations start from the rebased patch
+else:
+    shutil.copy(a.patch, os.path.join(d, "patch.diff"))
 shutil.copy(a.demo, os.path.join(d, "demo.py"))
 meta = json.load(open(a.meta))
 mp = os.path.join(d, "meta.json")
